@@ -238,6 +238,21 @@ func zzStubTrim(s, cutset string) string {
 	return s
 }
 
+// zzStubTrimSpace: strings.TrimSpace by contract on the ghost line pool (should
+// the code use it): blank and spaces-only lines and the empty string trim to
+// "", a line loses its terminator, a fragment is unchanged.
+func zzStubTrimSpace(s string) string {
+	if s == "\n" || s == "  \n" || s == "  " || s == "" {
+		return ""
+	}
+	for j := 0; j < zzMaxL; j++ {
+		if s == zzLineText(j) {
+			return zzLineTok(j)
+		}
+	}
+	return s
+}
+
 func zzStubUnmarshal(in []byte, out interface{}) error {
 	for j := 0; j < zzMaxL; j++ {
 		if zzWritten[j] && zzKinds[j] == 3 {
